@@ -184,6 +184,7 @@ func init() {
 			c.guard("slicebounds", func() { ruleSliceBounds(c, "slicebounds"); c.floor("slicebounds", 4) })
 			c.guard("parallelidx", func() { ruleParallelIdx(c, "parallelidx"); c.floor("parallelidx", 1) })
 			c.guard("trimwindow", func() { ruleTrimWindow(c, "trimwindow"); c.floor("trimwindow", 2) })
+			c.guard("nonneglen", func() { ruleNonNegLen(c, "nonneglen", "Truncate", "Stitch", "Compose"); c.floor("nonneglen", 8) })
 			c.guard("mustpass", func() { ruleScratchReverse(c, "mustpass"); c.floor("mustpass", 1) })
 			c.guard("qtravel", func() {
 				ruleQTravel(c, "qtravel", [][2]string{{"seq/linear", "(*QSeq).RevComp"}, {"seq/linear", "(*QSeq).Reverse"}, {"seq/alignment", "(*QSeq).RevComp"}, {"seq/alignment", "(*QSeq).Reverse"}})
@@ -213,6 +214,7 @@ func init() {
 				c.floor("stalebuf", 2)
 			})
 			c.guard("flagcases", func() { ruleFlagCases(c, "flagcases"); c.floor("flagcases", 1) })
+			c.guard("reflectnew", func() { ruleReflectNew(c, "reflectnew", "seq/multi", "seq/alignment", "seq/linear", "seq/sequtils") })
 			c.guard("fillwatermark", func() {
 				ruleFillWatermark(c, "fillwatermark", [][2]string{{"alphabet", "Letter.Repeat"}, {"alphabet", "QLetter.Repeat"}})
 				c.floor("fillwatermark", 2)
